@@ -423,6 +423,10 @@ impl WorldB {
         for slot in 0..ns {
             self.note_client_state(slot, obs);
         }
+        obs.count_by("oracle.C16.token_issue_roundtrip", std::mem::take(&mut self.token_roundtrips));
+        for (p, o, d, t) in std::mem::take(&mut self.deferred) {
+            obs.violate(&p, &o, &d, t);
+        }
         if std::env::var("VERIF_DEBUG").is_ok() {
             let cl: Vec<String> = (0..ns)
                 .map(|j| match self.client_snap(j) {
